@@ -700,7 +700,8 @@ RULE = ("one run = 1..3 valid root layouts generated from a random type with an 
         "stored-index corruption. distinct = hash of (node classes of the roots, op-class sequence, corruption yes/no); "
         "non-trivial = at least 3 events")
 REQUIRED_PROBES = {"quick": ["operation_returned", "operation_raised", "live_value_reread", "print_or_convert",
-                             "check_print_convert_on_corrupted", "recovered_after_allocation_failure"],
+                             "check_print_convert_on_corrupted", "recovered_after_allocation_failure",
+                             "check_print_convert_on_inconsistent_layout"],
                    "thorough": ["operation_returned", "operation_raised", "live_value_reread", "print_or_convert",
                                 "check_print_convert_on_corrupted"]}
 
